@@ -827,7 +827,7 @@ def c19(res: Result):
     rng = random.Random(res.seed + 19)
     run_mc(res, "determinism", ["exp", "bfs", "dfs", "min", "skiprem", "seeds"], 2, [2], [1000], ["Inv_WF"], None)
     tasks = []
-    pool = gen.network_pool(rng, 60 if q else 800, [3, 4, 4, 5, 5, 6], ["sparse", "modular", "mixed"])
+    pool = gen.network_pool(rng, 110 if q else 1200, [3, 4, 4, 5, 5, 6], ["sparse", "modular", "mixed", "dense"])
     strategies = COMPLETE_DEFAULT + [[{"op": "min", "n": 1, "size": -1, "skip": True}, {"op": "skiprem"}], [{"op": "scc", "maa": False}],
                                      [{"op": "block", "maa": False, "optsrc": False, "exact": False, "size": -1}]]
     for i, tt in enumerate(pool):
